@@ -227,6 +227,25 @@ def scrubbed_copy(net):
     return new
 
 
+def scrub_inplace(net):
+    """the same scrubbing on the object itself (element tables, controllers and their state are kept)"""
+    tmpl = _empty_net()
+    for k in list(net.keys()):
+        if k.startswith("_"):
+            if k in tmpl:
+                net[k] = copy.deepcopy(tmpl[k])
+            else:
+                del net[k]
+        elif k.startswith("res_") and isinstance(net[k], pd.DataFrame):
+            if k in tmpl:
+                net[k] = tmpl[k].copy(deep=True)
+            else:
+                del net[k]
+    net["converged"] = False
+    net["OPF_converged"] = False
+    return net
+
+
 _EMPTY = None
 
 
